@@ -48,7 +48,7 @@ fn f6_signature<S: Dom>(c: &[S], val: S) -> bool {
 
 /// Exact signature of F11 on one coordinate of a cubic (floats only): with a, b, c recomputed by the
 /// expressions of `*_inflections`, the code takes its quadratic-formula branch (|a| > epsilon) although the
-/// leading coefficient is negligible: 4|ac| <= sqrt(epsilon) b^2, so that `-b +- sqrt(b^2-4ac)` cancels at
+/// leading coefficient is negligible: 0 < 4|ac| <= sqrt(epsilon) b^2, so that `-b +- sqrt(b^2-4ac)` cancels at
 /// least half of the significand for one root (the one near -c/b).
 fn cancel_signature<S: Dom>(c: &[S]) -> bool {
     if S::EXACT || c.len() != 4 {
@@ -62,7 +62,7 @@ fn cancel_signature<S: Dom>(c: &[S]) -> bool {
     let b = six * (c1 - two * c0 + s);
     let cc = three * (c0 - s);
     let (a, b, cc) = (a.f(), b.f(), cc.f());
-    a.abs() > S::eps() && 4.0 * (a * cc).abs() <= S::eps().sqrt() * b * b
+    a.abs() > S::eps() && cc != 0.0 && 4.0 * (a * cc).abs() <= S::eps().sqrt() * b * b
 }
 
 /// What the oracle knows about one coordinate.
@@ -440,7 +440,7 @@ fn search_case<S: Ora, C: Cv<S>>(t: &mut Tape, cx: &mut Cx) -> CaseResult {
         <S as num_traits::NumCast>::from(t.pick(&[0.3f64, 1e-2, 1e-3, 1e-4, 1e-6])).unwrap()
     };
     let sc = maxabs(&cp).max(maxabs(&[p])).max(1.0);
-    let dtol = 64.0 * S::eps() * sc * sc * 12.0;
+    let dtol = 16.0 * S::eps() * sc * sc * 12.0;
     // coarse samples (parameter computed in S as the docs describe: i/steps), judged in the oracle type
     let (tt, pt, coarse_t, label): (S, P3<S>, Vec<S>, &'static str) = if !direct {
         let steps: u16 = if S::EXACT { t.pick(&[1u16, 2, 3, 4, 5, 6, 8]) } else { 1 + t.below(32) as u16 };
@@ -514,7 +514,12 @@ fn length_case<S: Ora, C: Cv<S>>(t: &mut Tape, cx: &mut Cx) -> CaseResult {
     if S::EXACT {
         // axis-aligned: the curve lives on one coordinate line, so every segment length is rational
         let ax = t.below(C::DIM);
-        let f = t.below(if C::DEG == 3 { gen::CUBIC_FAMS.len() } else { gen::QUAD_FAMS.len() });
+        // mostly families with a turning point inside, so that polygon > chord
+        let f = if t.chance(160) {
+            if C::DEG == 3 { t.pick(&[2usize, 9, 10, 13, 14, 15]) } else { 2 }
+        } else {
+            t.below(if C::DEG == 3 { gen::CUBIC_FAMS.len() } else { gen::QUAD_FAMS.len() })
+        };
         let a = if C::DEG == 3 { gen::cubic_axis::<S>(t, f) } else { gen::quad_axis::<S>(t, f) };
         let others = [S::small(t, 9), S::small(t, 9), S::small(t, 9)];
         for i in 0..=C::DEG {
@@ -567,7 +572,7 @@ fn length_case<S: Ora, C: Cv<S>>(t: &mut Tape, cx: &mut Cx) -> CaseResult {
         poly = poly + mag(&cpo[i], &cpo[i + 1]);
     }
     let sc = maxabs(&cp).max(1.0);
-    let tol = |segs: u32| 16.0 * S::eps() * sc * (segs as f64 + 2.0);
+    let tol = |segs: u32| 4.0 * S::eps() * sc * (segs as f64 + 2.0);
     let n1 = s as u32 + 1;
     let n2 = 2 * s as u32 + 2;
     check!(cx, le(cx, chord, l1, tol(n1)), "{} length_by_discretization({}) = {:?} is shorter than the chord {:?}; controls {:?}", C::NAME, s, l1, chord, cp);
